@@ -23,6 +23,9 @@ for pid in want:
     # entry points: observe_at names mapped onto generated names (also the _-suffixed variants the translator uses)
     entries = set()
     for o in props[pid]['anchors']['observe_at']:
+        if 'exported' in o:   # "all exported operations": every generated function with an exported Go name
+            entries |= {f for f in fns if f.split('.')[-1][:1].isupper() and f.split('.')[-1].rstrip('_').isalnum() and not re.match(r'Gen\.(U\d+|Go)\.', f)}
+            continue
         base = o.split(' ')[0]
         for cand in ('Gen.' + base, 'Gen.' + base + '_', 'Gen.Decimal.' + base):
             if cand in fns:
